@@ -149,6 +149,8 @@ def noise(ctx, viol, st):
             prob.noise_cholesky = L
         L = np.array(prob.noise_cholesky, dtype=float)
         B = np.array([rng.choice(X) for _ in range(rng.randint(1, 5))])
+        if _ % 4 == 0:
+            B = np.array([X[0], X[K - 1], X[0], [X[0][0] + 1.0 / 64, X[0][1]]])     # rows sharing one nearest design: each row has its OWN draw
         draws = []
         def fake(*a, size=None, **k):
             g = np.array([[rng.randint(-8, 8) / 4.0 for _ in range(size[1])] for _ in range(size[0])])
@@ -160,6 +162,9 @@ def noise(ctx, viol, st):
             np.random.normal = orig
         f = prob.evaluate(B.copy(), noisy=False)
         st["noisy_evaluations"] += 1
+        if len(draws) != 1 or draws[0].shape != f.shape:
+            viol.append({"signature": "noise-not-one-draw-per-row", "message": f"noisy evaluate of a batch of {len(B)} rows (nearest designs may repeat) drew standard normals of shape(s) {[d.shape for d in draws]} instead of one row per query row {f.shape}: rows would share their noise", "replay": {"kind": "noise", "B": B.tolist()}})
+            continue
         want = f + draws[0] @ L.T
         if y.shape != f.shape or not np.allclose(y, want, rtol=0, atol=1e-12):
             viol.append({"signature": "noise-cholesky-transposed" if np.allclose(y, f + draws[0] @ L, atol=1e-12) else "noise-not-affine",
